@@ -22,7 +22,7 @@ fn spec(t: Tier) -> Spec {
     Spec {
         id: "C10",
         level: "fault_enumeration",
-        rule: format!("every ordered forest with <= {} nodes over leaves (file, empty directory, link to an outside file, link to an outside directory holding a file (one outside directory per link), dangling link) and directories, as the content of r/; (sibling names a, b., c, d.., ..., f: some end in a dot) x {} expressions before -delete ({:?}); x -P -H -L; x starting points r | lr (a link to r) | r s | s r (s a second fixed tree, so that a failed removal can lie under a starting point that is not the last); for the starting point r also x depth bounds -maxdepth 1 | -mindepth 1 | -mindepth 1 -maxdepth 1 | -maxdepth 2 (entries outside the bounds are neither matched nor removed; a directory at the depth limit still holds its children, so its removal must fail). Removal faults arise by construction (a matched directory with an unmatched child: rmdir fails) — every placement the expressions and trees produce is enumerated. For each case the tree is built twice: (1) the real find runs `-depth EXPR -print` and the output must be the reference list of matched entries in depth-first order; (2) on the rebuilt tree the real find runs `EXPR -delete -printf 'D %p' -o -printf 'N %p'`: the D lines must be exactly the removals the reference simulation predicts, in order (a directory only when all its children were removed; a link itself, never its target), N lines everything else incl. failed removals, exit status and a diagnostic iff a removal failed, walk not stopped; (3) the snapshot (path, type, mode, size, link target, content hash, link count) of the whole sandbox after the run must equal the predicted one: nothing else changed inside or outside. For the starting point r under -L the follow mode is also given as the word -follow (before the tests, and after -delete). Every tree is also walked from inside r/ with the starting point spelled ., ./, ./., .//, ././ (the current directory cannot be removed through such a name: `.` is passed over silently, every other spelling must fail with a diagnostic, -delete false and a non-zero status; everything below is removed as predicted). Every tree is also run with `-delete -delete`: the second removal of an entry that is already gone must fail (diagnostic, -delete false, exit != 0). non-trivial = case in which at least one entry is matched and at least one is not, or a removal fails", max_nodes(t), EXPRS.len(), EXPRS),
+        rule: format!("every ordered forest with <= {} nodes over leaves (file, empty directory, link to an outside file, link to an outside directory holding a file (one outside directory per link), dangling link) and directories, as the content of r/; (sibling names a, b., c, d.., ..., f: some end in a dot) x {} expressions before -delete ({:?}); x -P -H -L; x starting points r | lr (a link to r) | r s | s r (s a second fixed tree, so that a failed removal can lie under a starting point that is not the last); for the starting point r also x depth bounds -maxdepth 1 | -mindepth 1 | -mindepth 1 -maxdepth 1 | -maxdepth 2 (entries outside the bounds are neither matched nor removed; a directory at the depth limit still holds its children, so its removal must fail). Removal faults arise by construction (a matched directory with an unmatched child: rmdir fails) — every placement the expressions and trees produce is enumerated. For each case the tree is built twice: (1) the real find runs `-depth EXPR -print` and the output must be the reference list of matched entries in depth-first order; (2) on the rebuilt tree the real find runs `EXPR -delete -printf 'D %p' -o -printf 'N %p'`: the D lines must be exactly the removals the reference simulation predicts, in order (a directory only when all its children were removed; a link itself, never its target), N lines everything else incl. failed removals, exit status and a diagnostic iff a removal failed, walk not stopped; (3) the snapshot (path, type, mode, size, link target, content hash, link count) of the whole sandbox after the run must equal the predicted one: nothing else changed inside or outside. For the starting point r under -L the follow mode is also given as the word -follow (before the tests, and after -delete). Every tree is also walked from inside r/ with the starting point spelled ., ./, ./., .//, ././ (the current directory cannot be removed through such a name: `.` is passed over silently, every other spelling must fail with a diagnostic, -delete false and a non-zero status; everything below is removed as predicted). Unprivileged slice: `find r -delete` as uid 65534 on a tree with a file in a directory without write permission, files in a sticky directory owned by root (one the user's own), a link to a read-only file outside: exactly the removable entries go, the others and the link's target keep mode, owner and content, refusals are diagnosed with a non-zero status. Every tree is also run with `-delete -delete`: the second removal of an entry that is already gone must fail (diagnostic, -delete false, exit != 0). non-trivial = case in which at least one entry is matched and at least one is not, or a removal fails", max_nodes(t), EXPRS.len(), EXPRS),
         bound: json!({"max_nodes": max_nodes(t), "expressions": EXPRS, "follow": ["-P","-H","-L"], "roots": ["r","lr","r s","s r"]}),
         assumptions: vec![
             "-empty (whose truth changes as the walk deletes) is outside the check".into(),
@@ -427,7 +427,71 @@ fn dot_case(ctx: &mut Ctx, forest: &[Shape], spelling: &str, e: &str) -> Option<
     None
 }
 
+/// -delete by an unprivileged user (uid 65534) where some removals are refused: a file in a
+/// directory without write permission, a file in a sticky directory owned by somebody else. What
+/// cannot be removed stays exactly as it was — same mode, same owner, same content, also the
+/// target of a link — and is diagnosed; everything else goes.
+fn unprivileged_slice(ctx: &mut Ctx) {
+    use std::os::unix::fs::PermissionsExt;
+    let sbx = ctx.sbx.clone();
+    crate::sandbox::clear_dir(&sbx);
+    let mk = |p: &str, mode: u32, dir: bool, uid: u32| {
+        let full = sbx.join(p);
+        if dir {
+            std::fs::create_dir_all(&full).unwrap();
+        } else {
+            std::fs::write(&full, b"data").unwrap();
+        }
+        crate::props::labelled::chown(&full, uid, uid).unwrap();
+        std::fs::set_permissions(&full, std::fs::Permissions::from_mode(mode)).unwrap();
+    };
+    std::fs::set_permissions(&sbx, std::fs::Permissions::from_mode(0o755)).ok();
+    mk("outside", 0o755, true, 65534);
+    mk("outside/target", 0o400, false, 65534);
+    mk("r", 0o755, true, 65534);
+    mk("r/w", 0o755, true, 65534);
+    mk("r/w/g", 0o444, false, 65534);
+    mk("r/ro", 0o755, true, 65534);
+    mk("r/ro/f", 0o444, false, 65534);
+    mk("r/sticky", 0o1777, true, 0);
+    mk("r/sticky/theirs", 0o644, false, 0);
+    mk("r/sticky/mine", 0o600, false, 65534);
+    std::os::unix::fs::symlink("../outside/target", sbx.join("r/ln")).unwrap();
+    crate::props::labelled::chown(&sbx.join("r/ln"), 65534, 65534).unwrap();
+    // r/ro loses its write permission last
+    std::fs::set_permissions(sbx.join("r/ro"), std::fs::Permissions::from_mode(0o555)).unwrap();
+    let before = sandbox::snapshot(&sbx);
+    let got = crate::props::c02::run_find_as_nobody(&["r", "-sorted", "-delete", "-printf", "D %p\\n", "-o", "-printf", "N %p\\n"], &sbx);
+    // restore access for the snapshot and the clean-up
+    let after = sandbox::snapshot(&sbx);
+    ctx.rep.evaluations += 1;
+    ctx.rep.nontrivial += 1;
+    ctx.rep.count("unprivileged_delete_runs", 1);
+    let gone: BTreeSet<&str> = ["r/w/g", "r/w", "r/ln", "r/sticky/mine"].into_iter().collect();
+    let want_after: Vec<SnapEntry> = before.iter().filter(|e| !gone.contains(e.path.as_str()) && e.path != ".mc-find-bin").cloned().collect();
+    let after: Vec<SnapEntry> = after.into_iter().filter(|e| e.path != ".mc-find-bin").collect();
+    let detail = format!("find r -sorted -delete ... as uid 65534: status {:?}\nstdout {:?}\nstderr {:?}\nbefore {:?}\nafter  {:?}", got.code, lines(&got.out), String::from_utf8_lossy(&got.err), before.iter().map(|e| format!("{}:{}:{:o}", e.path, e.kind, e.mode)).collect::<Vec<_>>(), after.iter().map(|e| format!("{}:{}:{:o}", e.path, e.kind, e.mode)).collect::<Vec<_>>());
+    if got.panicked() {
+        ctx.rep.violation("C10 panic [unprivileged -delete]", detail, json!({"prop":"C10","unprivileged":true}));
+    } else if after != want_after {
+        let changed_mode = after.iter().any(|a| before.iter().any(|b| b.path == a.path && (b.mode != a.mode || b.size != a.size)));
+        ctx.rep.violation(if changed_mode { "C10 an entry that could not be removed (or a link's target) was changed instead [unprivileged -delete]" } else { "C10 wrong set of entries removed [unprivileged -delete]" }, detail, json!({"prop":"C10","unprivileged":true}));
+    } else if got.code == Ok(0) || got.err.is_empty() {
+        ctx.rep.violation("C10 refused removals not diagnosed / exit status 0 [unprivileged -delete]", detail, json!({"prop":"C10","unprivileged":true}));
+    } else {
+        let d: BTreeSet<String> = lines(&got.out).iter().filter_map(|l| l.strip_prefix("D ").map(String::from)).collect();
+        if d != gone.iter().map(|s| s.to_string()).collect() {
+            ctx.rep.violation("C10 -delete true/false does not match the removals that happened [unprivileged -delete]", detail, json!({"prop":"C10","unprivileged":true}));
+        }
+    }
+    let _ = std::fs::set_permissions(sbx.join("r/ro"), std::fs::Permissions::from_mode(0o755));
+    crate::sandbox::clear_dir(&sbx);
+}
+
 fn run(ctx: &mut Ctx) {
+    if ctx.shard == 7 % ctx.nshards {
+        unprivileged_slice(ctx);
+    }
     let labels = [Leaf::File, Leaf::EmptyDir, Leaf::LnFile, Leaf::LnDir, Leaf::LnDangling];
     for n in 0..=max_nodes(ctx.tier) {
         let mut todo: Vec<Vec<Shape>> = vec![];
@@ -485,6 +549,10 @@ fn run(ctx: &mut Ctx) {
 
 fn replay(case: &Value, ctx: &mut Ctx) -> Option<String> {
     let forest = tree::decode_forest(case["forest"].as_str()?)?;
+    if case["unprivileged"] == true {
+        unprivileged_slice(ctx);
+        return ctx.rep.violations.keys().next().cloned();
+    }
     if let Some(sp) = case["dot"].as_str() {
         let sp: &'static str = [".", "./", "./.", ".//", "././"].into_iter().find(|x| *x == sp)?;
         let e = EXPRS.iter().find(|x| Some(**x) == case["expr"].as_str())?;
